@@ -82,10 +82,56 @@ def mk_date(o, days):
     return _P().LocalDate._ctor(days_since_epoch=days, calendar=cal_of(o))
 
 
-def mk_odt(o, days, nod, off):
+def _mk_odt_plain(o, days, nod, off):
     P = _P()
     return P.OffsetDateTime._ctor(local_date=mk_date(o, days),
                                   offset_time=P.OffsetTime._ctor(nanosecond_of_day=nod, offset_seconds=off))
+
+
+ROUTES_USED = {}
+
+
+def mk_odt(o, days, nod, off):
+    """The OffsetDateTime (calendar o, local day, nanosecond of day, offset) - built by one of several ROUTES and
+    sometimes OBSERVED (to_instant, hash, ==, in_zone) before it is handed to the operation under test. The choice
+    is a deterministic function of the fields. The abstract value is the same on every route, so the model's
+    reply does not change; a value that remembers how it was made (memoised instant, calendar dropped on one
+    route, non-normalised parts) makes the operation disagree."""
+    P = _P()
+    k = (days * 7 + nod // 1000 + nod + off) % 8
+    x = None
+    try:
+        if k == 1:
+            i = days * NPD + nod - off * NPS
+            if INST_MIN <= i <= INST_MAX:
+                x = mk_inst(*divmod(i, NPD)).with_offset(P.Offset.from_seconds(off), cal_of(o))
+        elif k == 2:
+            x = _mk_odt_plain(o, days, nod, off)
+            x.to_instant()
+            hash(x)
+        elif k == 3:
+            off2 = -off if off else 3600
+            d2, n2 = divmod(days * NPD + nod + (off2 - off) * NPS, NPD)
+            if day_ok(o, d2):
+                x = _mk_odt_plain(o, d2, n2, off2).with_offset(P.Offset.from_seconds(off))
+        elif k == 4:
+            o2 = 0 if o != 0 else 2
+            if day_ok(o2, days):
+                x = _mk_odt_plain(o2, days, nod, off).with_calendar(cal_of(o))
+        elif k == 5:
+            d = P.Duration.from_nanoseconds(90_000_000_000_000 + nod % 1000)
+            x = (_mk_odt_plain(o, days, nod, off) + d) - d
+        elif k == 6:
+            x = _mk_odt_plain(o, days, nod, off)
+            x.in_fixed_zone().to_instant()
+            _ = x == x, x.local_date_time, x.to_offset_date()
+    except (ValueError, OverflowError):
+        x = None
+    if x is None:
+        k = 0
+        x = _mk_odt_plain(o, days, nod, off)
+    ROUTES_USED[k] = ROUTES_USED.get(k, 0) + 1
+    return x
 
 
 def mk_inst(d, n):
@@ -97,7 +143,15 @@ def mk_dur(d, n):
 
 
 def s_odt(x):
-    return ints(int(x.calendar._ordinal), x.date._days_since_epoch, x.nanosecond_of_day, x.offset.seconds)
+    """canonical fields of an OffsetDateTime; the instant it reports must be its local value minus its offset"""
+    days, nod, off = x.date._days_since_epoch, x.nanosecond_of_day, x.offset.seconds
+    want = days * NPD + nod - off * NPS
+    if INST_MIN <= want <= INST_MAX:
+        i = x.to_instant()
+        got = i._days_since_epoch * NPD + i._nanosecond_of_day
+        if got != want:
+            return f"OUT-OF-STEP to_instant()={got} local-offset={want} fields {int(x.calendar._ordinal)} {days} {nod} {off}"
+    return ints(int(x.calendar._ordinal), days, nod, off)
 
 
 def s_inst(x):
